@@ -310,6 +310,11 @@ def shrink(mod, case, fp, max_rounds=60, time_budget=240.0):
     curv = still_fails(case)
     if curv is None:
         return None
+    if curv.get("sub") is not None and hasattr(mod, "pin") and getattr(mod, "PIN_FIRST", False):
+        cand = mod.pin(cur, curv["sub"])
+        v = still_fails(cand)
+        if v is not None:
+            return cand, v
     rounds = 0
     progress = True
     while progress and rounds < max_rounds and time.monotonic() - t0 < time_budget:
